@@ -4,14 +4,14 @@ attributes, data records) must be equal; K-api correspondence with the model, wh
 import copy
 import apistream
 import judge
+import filemodel
 
 EXTRA_COQ_FILES = ('GenFacts/SchemaOK.v',)
 RULE = ('seeded random programs in which add_* / assignment calls of every kind of rejection are injected (bad attribute value of '
         'every attribute class, value outside an enumeration, invalid reference, non-str name, bad origin reference type, duplicate '
         'dataset name, unsupported cast dtype, non-array data, bad frame channel lists) before and between valid calls of the same '
         'name; a rejected add_origin (with and without explicit reference) as the first origin call, objects around it, then the defining origin; compared with the history without the rejected calls. Distinct by (program index, number of rejected calls).')
-ASSUMPTIONS = ['the order of sets of DIFFERENT types in the file is not compared; the position of a set left empty by a rejected call is '
-               'the known finding D22 (it can change the defining origin), replayed on every run']
+ASSUMPTIONS = []
 PARTIAL = ('failed WRITES: the model shows which mutations a failed write leaves (derived attributes, merged data); the clause '
            '"once the cause is removed the same file as a fresh specification" is exercised by correspondence only')
 
@@ -99,13 +99,12 @@ def run(ctx):
                 for key in set(sa) | set(sb):
                     if sa.get(key) != sb.get(key):
                         diff.append({'set': key, 'with_rejected_calls': [x[0] for x in sa.get(key, [])], 'without': [x[0] for x in sb.get(key, [])]})
-            # known finding D22: the only residue the model (= the implementation on this program, K-api agreed on both
-            # histories) has for a rejected call is the empty set it registered (theorem C20_reject: same_content); a
-            # difference is that residue when some rejected call was the first creating call for its (type, set name)
-            first_for_set = judge.rejected_first_for_set(prog, r['outs'])
-            explained = first_for_set and r['agree'] and r2['agree']
-            ctx.violation('rejected-call-left-a-trace', {**det, 'differences': diff[:5]},
-                          finding_key='D22-empty-set-position' if explained else None)
+            ctx.violation('rejected-call-left-a-trace', {**det, 'differences': diff[:5]})
+        # since the repair of D22 (3577635) the ORDER of the sets is as if the rejected calls had never been made, too
+        oa = [[(s.type, s.name) for s in lf if isinstance(s, filemodel.DSet)] for lf in a.logical_files()]
+        ob = [[(s.type, s.name) for s in lf if isinstance(s, filemodel.DSet)] for lf in b.logical_files()]
+        if oa != ob:
+            ctx.violation('rejected-call-changed-the-order-of-the-sets', {**det, 'with_rejected_calls': oa[:2], 'without': ob[:2]})
         if k % 11 == 0:
             ctx.sample({'stream': 'K-reject', 'rejected_calls': nrej,
                         'rejected': [(s['op'], s.get('type'), o[1]) for s, o in zip(prog, r['outs']) if o[0] == 'err'][:6]})
